@@ -66,6 +66,10 @@ def cyc(c):
     return 2 * c[1] + (1 if c[0] == "w" else 0)
 
 
+def fcyc(c):      # file lock: 4*q + 2*(flock raises) + (1 if write)
+    return 4 * c[1] + (2 if (len(c) > 2 and c[2] == 1) else 0) + (1 if c[0] == "w" else 0)
+
+
 def enc_words(l):
     return "[" + ";".join("%d" % x for x in l) + "]%uint63"
 
@@ -121,11 +125,108 @@ def source_fileops():
     return bad
 
 
+def source_one_application():
+    """Tie T on the current source: exactly one Application (hence one Storage, one RwLock, one LockDict) per process.
+    radicale/__init__.py: the only construction site is inside `if _application_instance is None:` which is itself
+    inside `with _application_lock:`; radicale/server.py: serve() constructs Application once, outside every loop, and
+    hands that object to all servers; neither file calls storage.load directly.  Returns a list of problems."""
+    import ast
+    problems = []
+
+    def parents(tree):
+        par = {}
+        for n in ast.walk(tree):
+            for c in ast.iter_child_nodes(n):
+                par[c] = n
+        return par
+
+    def chain(n, par):
+        out = []
+        while n in par:
+            n = par[n]
+            out.append(n)
+        return out
+
+    def is_name(n, name):
+        return isinstance(n, ast.Name) and n.id == name
+
+    def is_none_test(n):
+        return (isinstance(n, ast.Compare) and is_name(n.left, "_application_instance") and len(n.ops) == 1
+                and isinstance(n.ops[0], ast.Is) and isinstance(n.comparators[0], ast.Constant) and n.comparators[0].value is None)
+
+    def calls(tree, name):
+        return [n for n in ast.walk(tree) if isinstance(n, ast.Call) and (
+            is_name(n.func, name) or (isinstance(n.func, ast.Attribute) and n.func.attr == name))]
+
+    # ---- radicale/__init__.py
+    tree = ast.parse(open(os.path.join(core.REPO, "radicale/__init__.py")).read())
+    par = parents(tree)
+    sites = calls(tree, "Application")
+    if len(sites) != 1:
+        problems.append("radicale/__init__.py: %d construction sites of Application (expected 1)" % len(sites))
+    for site in sites:
+        ch = chain(site, par)
+        fn = [a for a in ch if isinstance(a, ast.FunctionDef)]
+        if not fn or fn[0].name != "_get_application_instance":
+            problems.append("radicale/__init__.py: Application constructed outside _get_application_instance (line %d)" % site.lineno)
+            continue
+        ifs = [a for a in ch if isinstance(a, ast.If) and is_none_test(a.test)]
+        if not ifs:
+            problems.append("radicale/__init__.py:%d Application constructed without `if _application_instance is None`" % site.lineno)
+            continue
+        withs = [a for a in chain(ifs[0], par) if isinstance(a, ast.With) and any(
+            is_name(it.context_expr, "_application_lock") for it in a.items)]
+        if not withs:
+            problems.append("radicale/__init__.py:%d the test `_application_instance is None` is not inside `with _application_lock`"
+                            % ifs[0].lineno)
+    for n in ast.walk(tree):
+        if is_none_test(n):
+            if not [a for a in chain(n, par) if isinstance(a, ast.With) and any(
+                    is_name(it.context_expr, "_application_lock") for it in a.items)]:
+                problems.append("radicale/__init__.py:%d `_application_instance is None` tested outside `with _application_lock`" % n.lineno)
+    if calls(tree, "load") and any(isinstance(c.func, ast.Attribute) and is_name(c.func.value, "storage") for c in calls(tree, "load")):
+        problems.append("radicale/__init__.py calls storage.load")
+    # ---- radicale/server.py
+    tree = ast.parse(open(os.path.join(core.REPO, "radicale/server.py")).read())
+    par = parents(tree)
+    sites = calls(tree, "Application")
+    if len(sites) != 1:
+        problems.append("radicale/server.py: %d construction sites of Application (expected 1)" % len(sites))
+    for site in sites:
+        ch = chain(site, par)
+        fn = [a for a in ch if isinstance(a, (ast.FunctionDef, ast.Lambda))]
+        if not fn or not isinstance(fn[0], ast.FunctionDef) or fn[0].name != "serve":
+            problems.append("radicale/server.py:%d Application constructed outside serve()" % site.lineno)
+        loops = [a for a in ch if isinstance(a, (ast.For, ast.While, ast.ListComp, ast.DictComp, ast.GeneratorExp, ast.SetComp))]
+        if loops:
+            problems.append("radicale/server.py:%d Application constructed inside a loop (one per listening socket)" % site.lineno)
+    if any(isinstance(c.func, ast.Attribute) and is_name(c.func.value, "storage") for c in calls(tree, "load")):
+        problems.append("radicale/server.py calls storage.load")
+    return sorted(set(problems))
+
+
+def run_app_driver(ctx, mode, nreq):
+    base = tempfile.mkdtemp(prefix="rv-c11app-")
+    try:
+        drv = os.path.join(core.VERIF, "vlib", "drivers", "c11_app_driver.py")
+        env = dict(os.environ, PYTHONPATH=core.REPO, VERIF_REPO=core.REPO)
+        p = subprocess.run([core.PY, drv, mode, base, str(nreq)], stdout=subprocess.PIPE, stderr=subprocess.PIPE, env=env,
+                           text=True, timeout=ctx.n(120, 300))
+        lines = [l for l in p.stdout.splitlines() if l.startswith("{")]
+        if not lines:
+            return None, "driver failed: %s" % (p.stderr[-600:],)
+        return json.loads(lines[-1]), None
+    except subprocess.TimeoutExpired:
+        return None, "driver timed out"
+    finally:
+        shutil.rmtree(base, ignore_errors=True)
+
+
 def enc_progs(kind, progs):
     if kind == "cond":
         return "[%s]" % ";".join(enc_zl([cyc(c) for c in p]) for p in progs)
     if kind == "file":
-        return "[%s]" % ";".join("(%d%%nat, %s)" % (p, enc_zl([cyc(c) for c in prog])) for p, prog in progs)
+        return "[%s]" % ";".join("(%d%%nat, %s)" % (p, enc_zl([fcyc(c) for c in prog])) for p, prog in progs)
     return "[%s]" % ";".join(enc_natl(p) for p in progs)
 
 
@@ -187,6 +288,16 @@ def work_list(ctx):
             E("file", [(procs[i], p) for i, p in enumerate(progs)])
         for progs in multisets(cond_thread_progs(2), 2):                 # all 2 threads x 2 cycles (capped in quick)
             E("file", [(procs[i], p) for i, p in enumerate(progs)])
+    # acquisition FAILURES: flock raises OSError for the marked cycle (compared with the model), then a follow-up history
+    for procs in ([0, 0], [0, 1]):
+        E("file", [(procs[0], [("r", 0)]), (procs[1], [("w", 0, 1), ("w", 0)])])
+        E("file", [(procs[0], [("w", 1)]), (procs[1], [("r", 0, 1), ("r", 1)])])
+    E("file", [(0, [("r", 0), ("w", 0)]), (0, [("r", 0, 1)]), (0, [("w", 0, 1), ("r", 0)])])
+    # the kernel grants an incompatible lock once (fault 2): the in-process "Guarantees failed" check must refuse and
+    # the refusal must leave the bookkeeping alone (monitor only)
+    for progs in ([(0, [("w", 1)]), (0, [("r", 0, 2), ("w", 0)])], [(0, [("r", 1)]), (0, [("w", 0, 2), ("r", 0)])],
+                  [(0, [("r", 0), ("w", 0)]), (0, [("w", 0, 2)]), (0, [("r", 0, 2), ("w", 0)])]):
+        E("file", progs)
     E("file", [(0, [("w", 1)]), (0, [("r", 1)])])
     E("file", [(0, [("r", 1), ("w", 0)]), (1, [("r", 1)])])
     for procs in ([[0, 0, 1]] if ctx.quick else [[0, 0, 0], [0, 0, 1], [0, 1, 2]]):
@@ -211,6 +322,9 @@ def work_list(ctx):
         W.append(("enum", "cache", progs, (kcap if progs == [[5], [5], [5]] else cap, keep, extra, ctx.rng.randrange(10 ** 9))))
     for progs in (("r", [[5], [5], [5]]), ("r", [[5], [5], [7]]), ("r", [[5], [9]])):       # storage lock held in mode r
         W.append(("rand", "cache", progs, (ctx.n(150, 3000), ctx.rng.randrange(10 ** 9))))
+    # ---- the item-cache section of the file-lock back-end with stale entries: _clean_item_cache runs inside (monitor only)
+    for progs in ([[1], [2]], [[1], [2], [3]], [[1, 2], [3]]):
+        W.append(("enum", "sweep", progs, (ctx.n(250, 20000), 0, ctx.n(100, 2000), ctx.rng.randrange(10 ** 9))))
     # ---- larger configurations: seeded random schedules
     rng = ctx.rng
     big = []
@@ -257,7 +371,7 @@ def run_task(task):
         cont = any(len(en) < nthreads for en in r["enabled"][:max(1, len(r["enabled"]) // 2)])
         contended += 1 if cont else 0
         if keep_it or r["violation"] is not None:
-            cases.append((r["schedule"], r["trace"] if kind != "comp" else [], cont))
+            cases.append((r["schedule"], r["trace"] if kind not in ("comp", "sweep") else [], cont))
         else:
             monitored_only += 1
         if r["violation"] is not None and violation is None:
@@ -265,8 +379,8 @@ def run_task(task):
 
     if tkind == "enum":
         cap, keep, extra, seed = param
-        if kind == "comp":
-            keep = 400          # nothing is sent to Coq for the composition; only keys for the coverage count
+        if kind in ("comp", "sweep"):
+            keep = 400          # nothing is sent to Coq for these; only keys for the coverage count
         n = 0
         for r in X.enumerate_schedules(kind, progs, limit=cap):
             take(r, cap <= keep or n < keep // 2 or (n % 29 == 0 and len(cases) < keep))
@@ -395,6 +509,81 @@ def stress_cache_lock(ctx, n_threads, n_cycles, timeout=90):
         shutil.rmtree(base, ignore_errors=True)
 
 
+def stress_sweep_real(ctx, rounds):
+    """Real file system, real flock, real threads: readers call Collection._get on items without a cache entry while a
+    stale cache entry is present, so _clean_item_cache runs inside the cache section; every os.remove/unlink/rename
+    issued by the cache module is audited: a cache lock file is never taken away."""
+    import logging
+    import pickle
+    from radicale import config
+    from radicale.storage import multifilesystem
+    from radicale.storage.multifilesystem import cache as cache_mod
+    logging.getLogger("radicale").setLevel(logging.CRITICAL)
+    base = tempfile.mkdtemp(prefix="rv-c11sw-")
+    real_os = cache_mod.os
+    taken = []
+
+    class AuditOs:
+        def __getattr__(self, name):
+            return getattr(real_os, name)
+
+        def remove(self, path, **k):
+            if real_os.path.basename(str(path)).startswith(".Radicale.lock"):
+                taken.append("remove(%s)" % real_os.path.basename(str(path)))
+            return real_os.remove(path, **k)
+        unlink = remove
+
+        def rename(self, a, b, **k):
+            if real_os.path.basename(str(a)).startswith(".Radicale.lock"):
+                taken.append("rename(%s)" % real_os.path.basename(str(a)))
+            return real_os.rename(a, b, **k)
+        replace = rename
+    cache_mod.os = AuditOs()
+    try:
+        conf = config.load()
+        conf.update({"storage": {"type": "multifilesystem", "filesystem_folder": base, "_filesystem_fsync": "False"}},
+                    "c11", privileged=True)
+        storage = multifilesystem.Storage(conf)
+        coll_dir = os.path.join(base, "collection-root", "u", "c")
+        cache_dir = os.path.join(coll_dir, ".Radicale.cache", "item")
+        os.makedirs(cache_dir)
+        with open(os.path.join(coll_dir, ".Radicale.props"), "w") as f:
+            f.write('{"tag": "VCALENDAR"}')
+        bad = []
+        for rnd in range(rounds):
+            for n in range(3):
+                with open(os.path.join(coll_dir, "i%d.ics" % n), "w", newline="") as f:
+                    f.write(X.ITEM % ("i%d-%d" % (n, rnd)))          # changed behind the server's back
+            with open(os.path.join(cache_dir, "gone.ics"), "wb") as f:
+                pickle.dump(("0" * 64, "gone", "etag", "text", "gone.ics", "VEVENT", 0, 1), f)
+
+            def reader(n):
+                try:
+                    with storage.acquire_lock("r", "user"):
+                        item = multifilesystem.Collection(storage, "/u/c/")._get("i%d.ics" % n, verify_href=False)
+                        if item is None or item.uid != "i%d-%d" % (n, rnd):
+                            bad.append("item i%d not served" % n)
+                except Exception as e:   # noqa: B902
+                    bad.append("exception %r" % (e,))
+            ths = [threading.Thread(target=reader, args=(n,), daemon=True) for n in range(3)]
+            for t in ths:
+                t.start()
+            for t in ths:
+                t.join(30)
+            if any(t.is_alive() for t in ths):
+                return "readers did not finish (round %d)" % rnd
+            if taken:
+                return "the sweep of stale item-cache entries took a cache lock file away: %s (round %d)" % (taken[0], rnd)
+            if os.path.exists(os.path.join(cache_dir, "gone.ics")):
+                bad.append("stale cache entry not swept: _clean_item_cache was not exercised")
+            if bad:
+                return bad[0]
+        return None
+    finally:
+        cache_mod.os = real_os
+        shutil.rmtree(base, ignore_errors=True)
+
+
 def stress_processes(ctx, n_procs, n_cycles, n_threads=2):
     base = tempfile.mkdtemp(prefix="rv-c11-")
     try:
@@ -459,7 +648,7 @@ def run(ctx):
     # ---------------------------------------------------------------- enumerate / sample schedules on the real classes
     W = work_list(ctx)
     ctx.log("scheduling %d tasks" % len(W))
-    per_kind = {"cond": [], "file": [], "dict": [], "comp": [], "cache": []}
+    per_kind = {"cond": [], "file": [], "dict": [], "comp": [], "cache": [], "sweep": []}
     cache_fileops = set()
     first_violation = None
     steps = 0
@@ -467,7 +656,7 @@ def run(ctx):
         for task, cases, violation, st in ex.map(run_task, W, chunksize=1):
             tkind, kind, progs, param = task
             steps += st["steps"]
-            if kind == "cache":
+            if kind in ("cache", "sweep"):
                 cache_fileops.update(st["fileops"])
             if st["monitored_only"]:
                 ctx.count("schedules-monitored-only:%s" % kind, st["monitored_only"])
@@ -481,13 +670,14 @@ def run(ctx):
             for sched, trace, cont in cases:
                 ctx.case((kind, repr(progs), tuple(sched)), nontrivial=cont,
                          sample=dict(lock=kind, programs=progs, schedule=sched) if len(ctx.samples) < 6 and cont and len(sched) > 12 else None)
-                if kind != "comp" and not (kind == "cache" and isinstance(progs[0], str)):
+                faulty = kind == "file" and any(len(c) > 2 and c[2] == 2 for _, prog in progs for c in prog)
+                if kind not in ("comp", "sweep") and not faulty and not (kind == "cache" and isinstance(progs[0], str)):
                     # (the composition and the storage-lock-held variant are monitored only)
                     per_kind[kind].append(((progs, sched), trace))
             if violation is not None and first_violation is None:
                 first_violation = violation
     ctx.extra["scheduler_steps_on_real_classes"] = steps
-    ctx.traces_validated = sum(len(v) for k, v in per_kind.items() if k != "comp")
+    ctx.traces_validated = sum(len(v) for k, v in per_kind.items())
     # the cache lock of the file-lock back-end is exclusive only because the lock file is never taken away
     # (Props/C11.v: C11_cachelock_exclusive vs C11_cachelock_unlink_refuted): its file operations must stay
     # {makedirs, open, flock, close} -- observed on every schedule, and read off the source
@@ -527,6 +717,26 @@ def run(ctx):
             detail += " ; first difference: %r" % (where,)
         ctx.obligation("correspondence:%s" % kind, ok, detail)
 
+    # ---------------------------------------------------------------- one lock object per process (nolock back-end)
+    probs = source_one_application()
+    ctx.obligation("source:one-Application-per-process", not probs, "; ".join(probs))
+    for mode in ("wsgi", "serve"):
+        res, err = run_app_driver(ctx, mode, ctx.n(8, 40))
+        if err:
+            ctx.obligation("driver:one-application:%s" % mode, False, err)
+            continue
+        ctx.extra.setdefault("one_application", {})[mode] = res
+        ctx.count("app-driver-requests:%s" % mode, sum(res["statuses"].values()))
+        if res["distinct_locks"] != 1 or res["overlaps"] or res["errors"]:
+            what = ("two first requests through radicale.application" if mode == "wsgi" else "radicale.server.serve() with two listening sockets")
+            ctx.violation("C11 one lock per process (%s, multifilesystem_nolock): %d Application objects / %d storage lock objects "
+                          "constructed, %d overlapping exclusive sections seen by the storage hook%s" % (
+                              what, res["constructed"], res["distinct_locks"], res["overlaps"],
+                              (", errors: %s" % res["errors"][:1]) if res["errors"] else ""),
+                          dict(kind="one-application", mode=mode, requests=ctx.n(8, 40), result=res,
+                               note="re-run: PYTHONPATH=$VERIF_REPO /venv/bin/python vlib/drivers/c11_app_driver.py %s <empty dir> %d" % (
+                                   mode, ctx.n(8, 40))))
+
     # ---------------------------------------------------------------- real threads, real processes
     v = stress_threads(ctx, 8, ctx.n(150, 1500))
     ctx.count("real-thread-cycles", 8 * ctx.n(150, 1500))
@@ -539,6 +749,11 @@ def run(ctx):
         ctx.violation("C11 real flock, cache lock of the file-lock back-end: " + v,
                       dict(kind="real-cache-lock", threads=6, cycles=ctx.n(150, 1500), seed=ctx.seed,
                            note="non-deterministic; re-run ./check C11"))
+    v = stress_sweep_real(ctx, ctx.n(10, 100))
+    ctx.count("real-sweep-rounds", ctx.n(10, 100))
+    if v:
+        ctx.violation("C11 real flock, item-cache section with stale entries: " + v,
+                      dict(kind="real-sweep", rounds=ctx.n(10, 100), seed=ctx.seed, note="re-run ./check C11"))
     v, tot = stress_processes(ctx, 8, ctx.n(100, 600))
     ctx.extra["multi_process"] = tot
     ctx.count("real-process-cycles", tot.get("cycles", 0))
